@@ -36,6 +36,7 @@ RDMS = "tangelo/toolboxes/molecular_computation/rdms.py"
 HEA = "tangelo/toolboxes/ansatz_generator/hea.py"
 BOOT = "tangelo/toolboxes/post_processing/bootstrapping.py"
 GROUP = "tangelo/toolboxes/measurements/qubit_terms_grouping.py"
+PEN = "tangelo/toolboxes/ansatz_generator/penalty_terms.py"
 ISP = "tangelo/toolboxes/molecular_computation/integral_solver_pyscf.py"
 
 FIRE = [
@@ -122,6 +123,11 @@ FIRE = [
     ("reorder-ladder-type-lost", "C12", [(MT, "        new_term = tuple([(int(remapped[ti[0]]), ti[1]) for ti in term])", "        new_term = tuple([(int(remapped[ti[0]]), 1) for ti in term])")], "K8.spin-ordering"),
     ("vector-reordered-twice-for-scbk", "C12", [(SV, "        if not up_then_down:\n            warnings.warn(", "        if True:\n            warnings.warn(")], "K8.spin-ordering"),
     ("vector-odd-before-even", "C12", [(SV, "    if up_then_down:\n        vector = np.concatenate((vector[::2], vector[1::2]))", "    if up_then_down:\n        vector = np.concatenate((vector[1::2], vector[::2]))")], "K8.spin-ordering"),
+    ("penalty-target-sign", "C12", [(PEN, "    all_terms = [[(), -sz]] + spinz_operator_list(n_orbs, up_then_down)", "    all_terms = [[(), sz]] + spinz_operator_list(n_orbs, up_then_down)")], "K9.penalty"),
+    ("penalty-not-squared", "C12", [(OPS, "    fe_op *= fe_op\n    return normal_ordered(fe_op)", "    return normal_ordered(fe_op)")], "K9.penalty"),
+    ("combined-penalty-sz-uses-n-target", "C12", [(PEN, '        prefactor, sz = penalty_terms["Sz"][:]', '        prefactor, sz = penalty_terms["Sz"][0], penalty_terms["N"][1]')], "K9.penalty"),
+    ("combined-penalty-drops-ordering", "C12", [(PEN, "        pen_ferm += spin_operator_penalty(n_orbs, sz, mu=prefactor, up_then_down=up_then_down)", "        pen_ferm += spin_operator_penalty(n_orbs, sz, mu=prefactor)")], "K9.penalty"),
+    ("number-operator-from-spin-list", "C12", [(FO, "    all_terms = number_operator_list(n_orbs, up_then_down)\n    num_op = list_to_fermionoperator(all_terms)", "    all_terms = spinz_operator_list(n_orbs, up_then_down)\n    num_op = list_to_fermionoperator(all_terms)")], "K9.symmetry-operators"),
     ("s2-exchange-coefficient", "C12", [(FO, "                                 [((up[0], 1), (dn[1], 0), (dn2[0], 1), (up2[1], 0)), 1/2],", "                                 [((up[0], 1), (dn[1], 0), (dn2[0], 1), (up2[1], 0)), 1/4],")], "K9.symmetry-operators"),
     ("sz-sign", "C12", [(FO, "[((up[0], 1), (up[1], 0)), 1/2], [((dn[0], 1), (dn[1], 0)), -1/2]", "[((up[0], 1), (up[1], 0)), 1/2], [((dn[0], 1), (dn[1], 0)), 1/2]")], "K9.symmetry-operators"),
     # ---- C04
@@ -196,6 +202,8 @@ SILENT = [
     ("qwc-check-spelling", "C18", [(GROUP, "    for i in set(b1_dict) & set(b2_dict):\n        if b1_dict[i] != b2_dict[i]:\n            return False\n    return True", "    return all(b1_dict[i] == b2_dict[i] for i in b1_dict if i in b2_dict)")]),
     ("resample-format-spelling", "C18", [(BOOT, '    format_specifier = "0"+str(n_qubits)+"b"', '    format_specifier = f"0{n_qubits}b"')]),
     ("group-qwc-spelling", "C18", [(GROUP, "        if len(res2) < len(res):\n            res = res2", "        res = res2 if len(res2) < len(res) else res")]),
+    ("penalty-spelling", "C12", [(PEN, "    all_terms = [[(), -sz]] + spinz_operator_list(n_orbs, up_then_down)\n", "    all_terms = spinz_operator_list(n_orbs, up_then_down)\n    all_terms.append([(), -1 * sz])\n")]),
+    ("combined-penalty-spelling", "C12", [(PEN, '        prefactor, sz = penalty_terms["Sz"][:]', '        prefactor = penalty_terms["Sz"][0]\n        sz = penalty_terms["Sz"][1]')]),
     ("angle-law-spelling", "C06", [(AU, "    angle = 2.*coef if coef >= 0. else 4*np.pi+2*coef", "    angle = 2.*coef + (0. if coef >= 0. else 4*np.pi)")]),
     ("cirq-branches-reordered", "C01", [(TCIRQ, '        elif gate_name in {"SWAP"}:\n            target_circuit.append(GATE_CIRQ[gate_name](qubit_list[gate.target[0]], qubit_list[gate.target[1]]))\n        elif gate_name in {"CSWAP"}:\n            next_gate = GATE_CIRQ[gate_name].controlled(num_controls)\n            target_circuit.append(next_gate(*control_list, qubit_list[gate.target[0]], qubit_list[gate.target[1]]))\n',
                                          '        elif gate_name in {"CSWAP"}:\n            next_gate = GATE_CIRQ[gate_name].controlled(num_controls)\n            target_circuit.append(next_gate(*control_list, qubit_list[gate.target[0]], qubit_list[gate.target[1]]))\n        elif gate_name in {"SWAP"}:\n            target_circuit.append(GATE_CIRQ[gate_name](qubit_list[gate.target[0]], qubit_list[gate.target[1]]))\n')]),
